@@ -11,7 +11,7 @@ from collections import defaultdict
 
 from vlib import tlc
 from vlib.memports import (MEMTYPES, Collector, PortSim, accepts, addr_bits, port_corrupt_self_test,
-                           record_port_traces, replay_port_edges, validate_port_traces)
+                           record_port_traces, replay_port_edges, tlc_workers, validate_port_traces)
 
 MC_CFG = """SPECIFICATION Spec
 VIEW View
@@ -144,7 +144,7 @@ def run(rep):
     col = Collector(rep, cfg_fix=norm_cfg)
 
     # 1. exhaustive model check of the ideal memory (no implementation involved)
-    res = tlc.run("MultiMemMC", MC_CFG % ("", 0), workers=8)
+    res = tlc.run("MultiMemMC", MC_CFG % ("", 0), workers=tlc_workers(8))
     if res.invariant_violated:
         rep.violation({"component": "MultiMem", "clauses": ["MC:" + res.invariant_violated],
                        "what": "model violates " + res.invariant_violated, "tlc_tail": res.out.splitlines()[-40:]})
